@@ -18,7 +18,8 @@ class PropSpec:
         out = []
         for n in self.contracts + self.lemmas:
             out.append(('contract', n[0] if isinstance(n, tuple) else n))
-        return out + [('ground', n) for n in self.ground]
+        # the library models every obligation rests on are confronted with CPython on every run
+        return out + [('ground', n) for n in self.ground] + [('ground', 'engine.library-models')]
 
     def case_filter(self, name):
         """Only these clauses of a shared contract belong to this property (None = all)."""
@@ -316,3 +317,4 @@ PROPS = {
 
 
 from props import ground as _ground_units  # noqa: E402,F401  (registers the ground tables)
+from props import selfcheck as _selfcheck  # noqa: E402,F401
